@@ -22,6 +22,7 @@ type CaseC09 struct {
 	Dot    bool                   `json:"dot,omitempty"`
 	NoAttr bool                   `json:"no_attr,omitempty"`
 	Exotic bool                   `json:"exotic,omitempty"` // keys may be "", dotted, bracketed, "*"
+	Alias  *AliasSpec             `json:"alias,omitempty"`  // one container object gets a second parent in the subject Map
 }
 
 func init() { register("C09", checkC09) }
@@ -98,6 +99,9 @@ func genC09(t *rapid.T) CaseC09 {
 		sh := genRootShape(t, false)
 		c.Map = instantiate(t, sh).(map[string]interface{})
 		decorate(t, c.Map, c.Prefix)
+	}
+	if rapid.IntRange(0, 5).Draw(t, "alias") == 0 {
+		c.Alias = &AliasSpec{Src: rapid.IntRange(0, 30).Draw(t, "asrc"), Dst: rapid.IntRange(0, 30).Draw(t, "adst"), Key: rapid.SampledFrom(shapeKeys).Draw(t, "akey")}
 	}
 	return c
 }
@@ -186,6 +190,16 @@ func checkC09(c CaseC09, info *Info) *Failure {
 	mxj.SetAttrPrefix(c.Prefix)
 	mxj.LeafUseDotNotation(c.Dot)
 	subject := copyMap(c.Map)
+	if c.Alias != nil {
+		// the subject holds one container object twice; the reference sees the same Map by value
+		byValue := copyMap(c.Map)
+		if applyAlias(subject, *c.Alias, true) && applyAlias(byValue, *c.Alias, false) && !hasListInList(byValue) {
+			c.Map = byValue
+			info.Class("shared sub-structure in the subject")
+		} else {
+			subject = copyMap(c.Map)
+		}
+	}
 	mv := mxj.Map(subject)
 	js := canon(c.Map)
 
